@@ -152,7 +152,7 @@ func (r *Report) Violation(key, detail string, replay any) {
 	if len(detail) > 6000 {
 		detail = detail[:6000] + "…"
 	}
-	if len(r.viol) < 50 {
+	if len(r.viol) < 400 {
 		r.viol = append(r.viol, Violation{Key: key, Detail: detail, Replay: replay})
 	}
 }
